@@ -199,6 +199,8 @@ def opaque_container_class():
         return _OPAQUE[key]
 
     class OpaqueContainer(Container):
+        """impedance = own opaque value + impedance of the sub-circuit X it is given (so that handing it the
+        wrong sub-circuit is visible)"""
         _symbol = "Oc"
         _name = "opaque container"
         _subcircuit_default_value = {"X": None}
@@ -211,6 +213,9 @@ def opaque_container_class():
         def _impedance(self, f, X=None):
             n = f.size
             vals = [self._zs[i % len(self._zs)] for i in range(n)]
+            if X is not None:
+                sub = X._impedance(f)
+                vals = [v + sub.flat[i] if hasattr(sub, "flat") else v + sub[i] for i, v in enumerate(vals)]
             if any(is_symbolic(v) for v in vals):
                 return SArr(vals, (n,), np.complex128)
             return np.array(vals, dtype=np.complex128)
@@ -232,9 +237,12 @@ def make_dispatch_harness(kind: str):
         f = eng.real("f", npy=True)
         eng.assume(f > 0)
         inner_kind = "P" if kind == "S" else "S"
-        inner = (Parallel if inner_kind == "P" else Series)([Opaque("c", [z[2]]), OC([z[3]])])
-        con = (Series if kind == "S" else Parallel)([Opaque("a", [z[0]]), OC([z[1]]), inner])
-        tree = (kind, [("leaf", [z[0]]), ("leaf", [z[1]]), (inner_kind, [("leaf", [z[2]]), ("leaf", [z[3]])])])
+        zx = [eng.complex("zx%d" % i) for i in range(2)]
+        inner = (Parallel if inner_kind == "P" else Series)([Opaque("c", [z[2]]), OC([z[3]], X=Series([Opaque("x1", [zx[1]])]))])
+        con = (Series if kind == "S" else Parallel)([Opaque("a", [z[0]]), OC([z[1]], X=Series([Opaque("x0", [zx[0]])])), inner])
+        eng.assume(z[1] + zx[0] != 0)
+        eng.assume(z[3] + zx[1] != 0)
+        tree = (kind, [("leaf", [z[0]]), ("leaf", [z[1] + zx[0]]), (inner_kind, [("leaf", [z[2]]), ("leaf", [z[3] + zx[1]])])])
         exp = law(tree, 0, 1, eng)
         ok, Z = call(con.get_impedances, mk_array(eng, [f]))
         eng.check(ok, "evaluates", lambda: "raised %r" % (Z,))
